@@ -119,6 +119,16 @@ impl TypeAggregator {
             if new_version > existing_version {
                 // New version is higher: remove old entry, insert new name
                 let merged_kind = self.imports.shift_remove(&existing_name).unwrap();
+                // The merged interface is now imported under the new name; name the
+                // interface itself accordingly, so that dependency imports and lookups
+                // by interface id agree with the import name whatever the order of
+                // aggregation was.
+                if let ItemKind::Instance(id) = merged_kind {
+                    if self.types[id].id.as_deref() == Some(existing_name.as_str()) {
+                        self.types[id].id = Some(name.to_string());
+                        self.interfaces.insert(name.to_string(), id);
+                    }
+                }
                 self.imports.insert(name.to_string(), merged_kind);
                 // Update any existing redirects that pointed to the old name
                 for redirect in self.name_redirects.values_mut() {
